@@ -323,6 +323,9 @@ func (fx *fsExplorer) model(in *Interp, site ssa.CallInstruction, name string, a
 			return Tuple{[]Val{kInt(0), fx.osError(in, "os.Write", "EIO", hp)}}, true
 		}
 		return Tuple{[]Val{kInt(0), in.mkErr(&ErrObj{Kind: "ext", Msg: kStr("unexpected EOF"), Key: "body-read-error"})}}, true
+	case "(*os.File).Name":
+		// the name the file was opened with: the absolute host path
+		return SymStr{Key: "name(" + keyOf(args[0]) + ")", HostPath: true, Rooted: true}, true
 	case "(*os.File).Close":
 		// only the explicit (non-deferred) close matters for the result
 		if _, isDefer := site.(*ssa.Defer); isDefer {
@@ -655,6 +658,11 @@ func fsFaultRules(c *Ctx, pr *PropertyRun, prop string) {
 		pr.Rules = append(pr.Rules, fr)
 		c01Forced(c, fr, runs)
 		truncateRule(c, pr, "C01", runs)
+		rl := NewRule("C01", "C01.refusal-leaves-tree", "a request that is refused (4xx/5xx) with nothing wrong in the operating system leaves the tree as it was: in the resource-tree model a refused request changes nothing (the fault-free part of C02.no-failure-after-effect)")
+		rl.Exhaustive = true
+		rl.Bounds = r.Bounds
+		pr.Rules = append(pr.Rules, rl)
+		c02Traces(c, rl, runs, true)
 		rc := NewRule("C01", "C01.refusal-codes", "with no failing operating-system call a request is refused only with the statuses the statement gives for that method (400/404/405/412/415 as applicable)")
 		rc.Exhaustive = true
 		pr.Rules = append(pr.Rules, rc)
@@ -672,7 +680,7 @@ func fsFaultRules(c *Ctx, pr *PropertyRun, prop string) {
 		r.Bounds = "as C01.refusal-status"
 		pr.Rules = append(pr.Rules, r)
 		runs := exploreFileServer(c, r)
-		c02Traces(c, r, runs)
+		c02Traces(c, r, runs, false)
 	}
 }
 
@@ -1248,7 +1256,7 @@ func (run *fsRun) replay() (changes []string, feasible bool, faults int, forced 
 	return changes, feasible, faults, forced
 }
 
-func c02Traces(c *Ctx, r *RuleResult, runs []*fsRun) {
+func c02Traces(c *Ctx, r *RuleResult, runs []*fsRun, faultFreeOnly bool) {
 	seen := map[string]bool{}
 	for _, run := range runs {
 		r.Role("run")
@@ -1258,6 +1266,9 @@ func c02Traces(c *Ctx, r *RuleResult, runs []*fsRun) {
 		changes, feasible, faults := run.netChange()
 		if !feasible {
 			r.Role("not-a-sequential-execution")
+			continue
+		}
+		if faultFreeOnly && faults > 0 {
 			continue
 		}
 		if faults > 1 {
